@@ -232,7 +232,7 @@ ReuseSet ==
             : p \in {<<>>, <<SelU[1], SelU[2]>>, <<SelU[3], SelU[1], SelU[2]>>}, a1 \in {{SelU[2]}, {SelU[2], SelU[4]}, U}, a2 \in {U, {SelU[1], SelU[2]}, {SelU[1]}} }
 
 Scripts == CASE Family = "discovery13" -> { Reprop(sc, "C13") : sc \in {d \in DiscoverySet : d.info.tail # "none"} } \cup {u \in Unanswered : u.info.chunks <= u.info.bytes \div 16} [] Family = "discovery" -> DiscoverySet [] Family = "selection" -> SelectionSet [] Family = "endless" -> EndlessSet [] Family = "reuse" -> ReuseSet
-Header == [header |-> TRUE, family |-> Family]
+Header == [header |-> TRUE, family |-> Family, defs |-> EchoDefs]
 ASSUME PrintT(<<"HEADER", ToJson(Header)>>)
 ASSUME \A s \in Scripts : PrintT(<<"SCRIPT", ToJson(s)>>)
 ASSUME PrintT(<<"COUNT", ToJson([n |-> Cardinality(Scripts)])>>)
